@@ -40,7 +40,16 @@ impl Case {
 }
 
 const BUDGET: u64 = 1200;
-const HUGE: usize = 1 << 40;
+/// probe limit used to count the calls of the unlimited parse (its low 32 bits are large too)
+const HUGE: usize = (1 << 40) + 1_000_000;
+/// limits far beyond any call count, around the 32/64-bit boundaries: a limit that is narrowed, truncated or
+/// reinterpreted somewhere must not turn a completed parse into an error (clause 2) or change it (clause 1)
+fn huge_limits(n: u64) -> Vec<usize> {
+    let mut v: Vec<usize> = vec![(1usize << 31) - 1, 1usize << 31, (1usize << 32) - 1, 1usize << 32, (1usize << 32) + 1,
+        (1usize << 32) + n as usize, 1usize << 63, usize::MAX];
+    v.sort(); v.dedup();
+    v
+}
 
 /// One run on the real code.  text = observation in comb.rs format; outcome = what pest::state returned.
 struct Obs { text: String, outcome: String, calls: Option<u64> }
@@ -114,7 +123,7 @@ fn limits_for(n: u64) -> Vec<usize> {
 struct Stats {
     evaluations: u64, nontrivial: u64, sweeps: u64, sweeps_nontrivial: u64, diverged: u64, limit_errors: u64, same: u64,
     limit_panics: u64, limit_diverged: u64, violations: u64, max_calls: u64, vm_runs: u64, vm_rejected: u64, xlate: u64,
-    unlimited_panics: u64,
+    unlimited_panics: u64, huge: u64, midparse: u64, midparse_bad: u64,
 }
 
 /// property bookkeeping over one sweep (results in increasing limit order); only the first violation of
@@ -334,10 +343,13 @@ fn sweep(base: &Case, gram: Option<&Gram>, out: &mut Out) {
     if n > out.st.max_calls { out.st.max_calls = n; }
     let mut cl = Clauses::new(&o0.outcome);
     let mut any_nontrivial = false;
-    for l in limits_for(n) {
+    let mut all_limits = limits_for(n);
+    all_limits.extend(huge_limits(n));
+    for l in all_limits {
         let c = base.with(Some(l));
         let o = observe(&c);
         out.line(&c, &o);
+        if l >= (1usize << 31) - 1 { out.st.huge += 1; }
         if 1 < l && (l as u64) < n && out.seen.insert(c.show()) { out.st.nontrivial += 1; any_nontrivial = true; }
         for m in cl.check(l, &o.outcome, "state", &mut out.st) { out.contract(&c, &format!("{}{}", m, gtxt)); }
         if let (Some(g), Some(vcl)) = (gram, vm_cl.as_mut()) {
@@ -354,10 +366,6 @@ fn sweep(base: &Case, gram: Option<&Gram>, out: &mut Out) {
             }
         }
     }
-    // a limit far beyond the number of calls (not sent to the model runner: its limit is a unary number)
-    let mut hs = Stats::default();
-    for m in cl.check(HUGE, &oh.outcome, "state", &mut hs) { out.contract(&base.with(Some(HUGE)), &format!("{}{}", m, gtxt)); }
-    out.st.violations += hs.violations;
     if any_nontrivial { out.st.sweeps_nontrivial += 1; }
 }
 
@@ -467,6 +475,41 @@ fn wd_case() -> Case {
            prog: Rep(bx(orelse(Seq(bx(then(PushLit("q".into()), Str("a".into())))), MPeek))) }
 }
 
+/// The limit of a parse is the one in force when its ParserState was created: changing the process-global limit
+/// while the parse runs (here from inside a closure, deterministically) must not change that parse.
+/// witness tree on "xxxx"; after `when` iterations of the repeat body the global limit is set to `to`.
+fn midparse_outcome(lim: usize, change: Option<(usize, Option<usize>)>) -> String {
+    set_limit(Some(lim));
+    let count = std::cell::Cell::new(0usize);
+    let st = catch(|| pest::state::<R, _>("xxxx", |s| s.rule(0, |s| s.repeat(|s| {
+        count.set(count.get() + 1);
+        if let Some((when, to)) = change { if count.get() == when { set_limit(to); } }
+        s.rule(1, |s| s.match_string("x"))
+    }))));
+    set_limit(None);
+    match st {
+        Err(_) => "Panic".to_string(),
+        Ok(Ok(pairs)) => format!("OK:{}", tokens_of(pairs)),
+        Ok(Err(e)) => match e.variant {
+            pest::error::ErrorVariant::ParsingError { positives, negatives } => format!("PE:{:?}:{:?}", positives, negatives),
+            pest::error::ErrorVariant::CustomError { message } => format!("CE:{}", message),
+        },
+    }
+}
+fn midparse_check(out: &mut Out) {
+    for lim in 1..=9usize { for when in 1..=4usize { for to in [None, Some(1usize), Some(3), Some(1usize << 40)] {
+        let plain = midparse_outcome(lim, None);
+        let changed = midparse_outcome(lim, Some((when, to)));
+        out.st.midparse += 1;
+        if plain != changed {
+            out.st.midparse_bad += 1;
+            if out.st.midparse_bad == 1 {
+                out.contract(&w_case().with(Some(lim)), &format!("C12-midparse the parse started under limit {} gives `{}`, but `{}` when set_call_limit({:?}) is called from inside the closure after {} iterations: the limit of a running parse is not the one it started with", lim, plain, changed, to, when));
+            }
+        }
+    } } }
+}
+
 fn small_progs() -> Vec<Prog> {
     use Prog::*;
     let s = |x: &str| Str(x.to_string());
@@ -528,6 +571,7 @@ fn main() {
             if let Some(g) = compile(W_GRAMMAR) { let c = Case { lim: None, det: false, input: "xxxx".into(), env: g.env.clone(), prog: g.start.clone() }; sweep(&c, Some(&g), &mut out); }
             sweep(&wp_case(), None, &mut out);
             sweep(&wd_case(), None, &mut out);
+            midparse_check(&mut out);
             if let Some(g) = compile(WP_GRAMMAR) { let c = Case { lim: None, det: false, input: "aa".into(), env: g.env.clone(), prog: g.start.clone() }; sweep(&c, Some(&g), &mut out); }
         }
         // replay one case (its lim= field is ignored: the whole sweep is redone); optional grammar text as 3rd argument
@@ -593,6 +637,6 @@ fn main() {
         _ => { eprintln!("usage: c12 probe | witness | one CASE [GRAMMAR] | prog COUNT SEED | small MAXLEN | grammar COUNT SEED"); std::process::exit(2); }
     }
     let s = &out.st;
-    writeln!(out.w, "#SUMMARY\tevaluations={}\tdistinct_nontrivial={}\tsweeps={}\tsweeps_nontrivial={}\tdiverged={}\tsame={}\tlimit_errors={}\tlimit_panics={}\tlimit_diverged={}\tunlimited_panics={}\tproperty_violations={}\tmax_calls={}\tvm_runs={}\tgrammars={}\tgrammars_rejected={}\txlate_mismatches={}",
-        s.evaluations, s.nontrivial, s.sweeps, s.sweeps_nontrivial, s.diverged, s.same, s.limit_errors, s.limit_panics, s.limit_diverged, s.unlimited_panics, s.violations, s.max_calls, s.vm_runs, grammars_ok, s.vm_rejected, s.xlate).unwrap();
+    writeln!(out.w, "#SUMMARY\tevaluations={}\tdistinct_nontrivial={}\tsweeps={}\tsweeps_nontrivial={}\tdiverged={}\tsame={}\tlimit_errors={}\tlimit_panics={}\tlimit_diverged={}\tunlimited_panics={}\thuge_limit_evaluations={}\tmidparse_checks={}\tmidparse_mismatches={}\tproperty_violations={}\tmax_calls={}\tvm_runs={}\tgrammars={}\tgrammars_rejected={}\txlate_mismatches={}",
+        s.evaluations, s.nontrivial, s.sweeps, s.sweeps_nontrivial, s.diverged, s.same, s.limit_errors, s.limit_panics, s.limit_diverged, s.unlimited_panics, s.huge, s.midparse, s.midparse_bad, s.violations, s.max_calls, s.vm_runs, grammars_ok, s.vm_rejected, s.xlate).unwrap();
 }
